@@ -92,7 +92,8 @@ pub struct CfgProfile {
     pub fluct: bool,
     pub caps: bool,
     pub partial: bool,
-    pub real_feed: bool,
+    /// None = generate both oracle flavours (1 in 4 uses the repository's own price feed)
+    pub real_feed: Option<bool>,
     pub small_fund: bool,
     /// allow closed / unregistered vAMMs in the initial deployment
     pub odd_vamms: bool,
@@ -109,7 +110,7 @@ impl CfgProfile {
             fluct: true,
             caps: false,
             partial: true,
-            real_feed: false,
+            real_feed: Some(false),
             small_fund: true,
             odd_vamms: false,
             six_decimals: false,
@@ -211,11 +212,15 @@ pub fn world_cfg_strategy(p: &CfgProfile) -> BoxedStrategy<WorldCfg> {
                 sel(partial_tab),
                 sel(fund_tab),
                 prop_oneof![3 => Just(false), 1 => Just(true)],
+                match p.real_feed {
+                    Some(b) => Just(b).boxed(),
+                    None => prop_oneof![3 => Just(false), 1 => Just(true)].boxed(),
+                },
             )
-                .prop_map(move |(vamms, maint, extra, liq_fee, partial_ratio, fund_balance, wl)| WorldCfg {
+                .prop_map(move |(vamms, maint, extra, liq_fee, partial_ratio, fund_balance, wl, real_feed)| WorldCfg {
                     native,
                     decimals,
-                    real_feed: p.real_feed,
+                    real_feed,
                     vamms,
                     init_ratio: (maint + extra).min(d),
                     maint_ratio: maint,
